@@ -15,6 +15,7 @@ const scopePkg = "app/scope"
 func init() {
 	register(&PropDef{ID: "C12", Title: "Scope failure signalling is safe from any number of goroutines", Rules: rulesC12,
 		Explanation: "Decided (structural necessary conditions): R1 every close() of a channel in package contextscope executes inside sync.Once.Do of a Once that lives in the same object (so two concurrent Stop/Kill/AppendError cannot both close); R2 the error list of both context-scope implementers is read and written only under its mutex; R3 in AppendError every path that appended an error reaches Stop, no error is appended after Stop was called (observers of 'done' see the error), and Kill reaches AppendError with a non-nil error on every path; R4 the parent a child scope will sign off from is kept only on the edge where the parent's AddTasks returned nil (no construction of a scope.Scope with a parent elsewhere), and close() signs off only if that parent is non-nil; R5 IsDone is a non-blocking select. " +
+			"R6 every result of scope.(*Scope).Err is nil or built in that call from the context scope's Errors() — never a remembered earlier result, which would hide errors appended afterwards. " +
 			"NOT decided: that every appended error is reported under all interleavings beyond this lock/once discipline; timing.",
 	})
 }
@@ -145,8 +146,8 @@ func rulesC12(c *Ctx) {
 		}
 		// append sites in AppendError: direct stores, or calls of a helper / function literal that stores
 		var sites []ssa.Instruction
-		indicators := map[ssa.Value]bool{}   // SSA values that change exactly where an error is recorded
-		indAllocs := map[ssa.Value]bool{}    // variables (allocs / captured) written where an error is recorded
+		indicators := map[ssa.Value]bool{} // SSA values that change exactly where an error is recorded
+		indAllocs := map[ssa.Value]bool{}  // variables (allocs / captured) written where an error is recorded
 		markBlock := func(g *ssa.Function, b *ssa.BasicBlock) {
 			for _, in := range b.Instrs {
 				switch x := in.(type) {
@@ -325,6 +326,42 @@ func rulesC12(c *Ctx) {
 		c.Check(sel > 0 && blocking == 0, "R5", "contextscope.("+T.Obj().Name()+").IsDone", f.Pos(), "select with default", "IsDone can block on the done channel")
 	}
 	c.Floor("R5", n5, 2)
+
+	// ---- R6 the scope's error accessor reports the current error list ---------------------------------
+	// every result of scope.(*Scope).Err is nil or built, in that call, from the context scope's Errors():
+	// a remembered earlier result hides errors appended afterwards ("every appended error is ... reported").
+	if errFn := c.P.Func("app/scope", "Scope", "Err"); errFn == nil {
+		c.Bad("R6", "scope.(*Scope).Err", 0, "anchor not found")
+	} else {
+		var errsCall *CallInfo
+		for _, ci := range Calls(errFn) {
+			if ci.Method != nil && ci.Method.Name() == "Errors" {
+				errsCall = ci
+			}
+		}
+		bad := ""
+		var pos token.Pos = errFn.Pos()
+		if errsCall == nil {
+			bad = "Err no longer reads the context scope's Errors()"
+		} else {
+			for _, r := range returnsOf(errFn) {
+				v := resolve(r.Results[0])
+				if isNilConst(v) {
+					continue
+				}
+				if !dominates(errsCall.Instr, r) {
+					bad, pos = "a non-nil result is returned without Errors() having been read in this call", r.Pos()
+				}
+				for _, o := range Origins(v, FlowOpts{}) {
+					if o.Kind == "field" || o.Kind == "global" {
+						bad, pos = "the result comes from remembered state ("+o.String()+")", r.Pos()
+					}
+				}
+			}
+		}
+		c.Check(bad == "", "R6", "scope.(*Scope).Err reports the current error list", pos, "nil, or built from Errors() of this call",
+			bad+" — errors appended after the remembered result was taken are stored but never reported by Err, Wait or Close")
+	}
 }
 
 func chanDesc(v ssa.Value) string {
